@@ -48,7 +48,7 @@ type c09Params struct {
 func (c09) ID() string    { return "C09" }
 func (c09) Level() string { return "exploration" }
 func (c09) Rule() string {
-	return "each case: stack x role of the real endpoint x suite x client-auth, and one hostile behaviour of an otherwise honest scripted peer drawn from the seed: (mutate) one handshake message truncated at a drawn length / extended / with a byte flipped / with a length-looking field overwritten / replaced by 0-8 arbitrary bytes; (raw) arbitrary or structured garbage records after k honest messages; (certs) certificate lists with RSA, P-256 and Ed25519 keys in either position; (flood) after completion or after k honest messages: handshake records, empty records, warning alerts, huge-fragment announcements, many message sequence numbers, fragments that disagree about the total length, records of the previous epoch (DTLCP; the application reads with Read or ReadFrom), the header of a 16 MiB message packed behind an honest message followed by its body (stream). Oracle: no task panics, the endpoint yields within the watchdog and finishes or blocks waiting for input within the step budget, and the hook-reported buffered bytes stay within (65536+4 + one record) + (two records of read-ahead) on the stream stack and 256 reassembly buffers of <= 64 KiB on the datagram stack. Raw mode also sends one exactly framed record with a body of a boundary length (0, 1, 15..17, 31..33, 47..49, 63..65, 80), also behind the scripted side's ChangeCipherSpec / Finished; floods include datagrams shorter than a record header, and the simulated socket records the call-stack depth of every read (bound 120 frames: no recursion per ignored datagram). distinct = distinct (parameters); non-trivial = the hostile bytes were delivered to a live endpoint"
+	return "each case: stack x role of the real endpoint x suite x client-auth, and one hostile behaviour of an otherwise honest scripted peer drawn from the seed: (mutate) one handshake message truncated at a drawn length / extended / with a byte flipped / with a length-looking field overwritten / replaced by 0-8 arbitrary bytes; (raw) arbitrary or structured garbage records after k honest messages; (certs) certificate lists with RSA, P-256 and Ed25519 keys in either position; (flood) after completion or after k honest messages: handshake records, empty records, warning alerts, huge-fragment announcements, many message sequence numbers, fragments that disagree about the total length, records of the previous epoch (DTLCP; the application reads with Read or ReadFrom), the header of a 16 MiB message packed behind an honest message followed by its body (stream). Oracle: no task panics, the endpoint yields within the watchdog and finishes or blocks waiting for input within the step budget, and the hook-reported buffered bytes stay within (65536+4 + one record) + (two records of read-ahead) on the stream stack and 256 reassembly buffers of <= 64 KiB on the datagram stack. Raw mode also sends one exactly framed record with a body of a boundary length (0, 1, 15..17, 31..33, 47..49, 63..65, 80), also behind the scripted side's ChangeCipherSpec / Finished; floods include datagrams shorter than a record header, and the simulated socket records the call-stack depth of every read (bound 120 frames: no recursion per ignored datagram). A third of the framed raw records announce more bytes than follow. distinct = distinct (parameters); non-trivial = the hostile bytes were delivered to a live endpoint"
 }
 func (c09) Components() (real, stub []string) {
 	return []string{"tlcp/dtlcp client and server (instrumented): record layer, message parsers, key agreement, reassembly"},
